@@ -20,7 +20,7 @@ def register(PROPS):
                  'reported.  The reference model is the union of the occurrence lists of the constituents (each obtained by draining a '
                  'separately parsed copy of that constituent alone), sorted by start, an occurrence with the same UID and instant in '
                  'several constituents kept once; occurrences of different UIDs at one instant may come in either order.  After every '
-                 'prefix the stream is cloned and the clone must deliver what the original goes on to deliver.',
+                 'prefix the stream is cloned and the clone must deliver what the original goes on to deliver.  A further driver (c02_zonemix, mode rdate) feeds RDATE lists whose values are written in different forms (UTC / three fixed-offset zones, every assignment) and requires the stream to be non-decreasing and complete.',
         'note': 'Not covered: more than 4 constituents or 3 occurrences each, duplicates inside one constituent (not settled by the '
                 'property text), more than 2 consecutive peeks.  Clone is used as an oracle, it is not part of the property; clone defects '
                 'are reported under clone-*/crash signatures.',
